@@ -23,4 +23,7 @@ def units(tier):
         H("C16", M, "check_repickle_after_mutation", t, fns, "3 stateful exemplars x keep_wrapper: pickle, mutate the wrapped object, read through the wrapper, pickle the same wrapper again"),
         H("C16", M, "check_rewrap", t, fns, "6 exemplars already wrapped (inner keep_wrapper symbolic) wrapped again x keep_wrapper x 1..2 round trips"),
         H("C16", M, "check_class_wrapper", t, fns, "3 classes x keep_wrapper x 1..2 round trips x ctor args 0..2"),
+        H("C16", M, "check_wrap_when_needed", t, fns + [W + "_wrap_objects_when_needed"],
+          "9 exemplars (lambda, nested, __main__ function, importable function, callable instance, builtin, 3 partials with "
+          "wrapped/unwrapped func, args and keywords) x closure constants 0..2 x arg 0..3 x 1..2 plain-pickle round trips"),
     ]
